@@ -101,6 +101,36 @@ def parse_msl(text):
     return out
 
 
+def msl_kinds(ty):
+    """descriptor types a Metal argument buffer member of this declared type can stand for (None: not interpreted)"""
+    t = re.sub(r"\bconst\b", "", ty)
+    m = re.search(r"metal::array<(.*), \d+>", t)
+    if m:
+        t = m.group(1)
+    t = t.strip().rstrip("&").strip()
+    rw = "metal::access::read_write" in t
+    for head, ro, wr in (("metal::texture_buffer<", "TexelBuffer", "RwTexelBuffer"), ("metal::texture2d_array<", "Texture2dArray", "RwTexture2dArray"),
+                         ("metal::texture2d<", "Texture2d", "RwTexture2d"), ("metal::texturecube_array<", "TextureCubeArray", None),
+                         ("metal::texturecube<", "TextureCube", None), ("metal::texture3d<", "Texture3d", "RwTexture3d")):
+        if t.startswith(head):
+            return {wr if rw else ro}
+    if t.startswith("helper::ByteAddressBuffer"):
+        return {"ByteBuffer", "BufferAddress"}
+    if t.startswith("helper::RWByteAddressBuffer"):
+        return {"RwByteBuffer", "RwBufferAddress"}
+    if t.startswith("helper::StructuredBuffer<"):
+        return {"StructuredBuffer"}
+    if t.startswith("helper::RWStructuredBuffer<"):
+        return {"RwStructuredBuffer"}
+    if t.startswith("metal::sampler"):
+        return {"SamplerState", "SamplerComparisonState"}
+    if t.startswith("metal::raytracing::instance_acceleration_structure"):
+        return {"RaytracingAccelerationStructure"}
+    if t.startswith("constant "):
+        return {"ConstantBuffer"}
+    return None
+
+
 def functions_defined(text):
     return set(re.findall(r"^\s*(?:\[\[[^\]]*\]\]\s*)*[\w:<>,\s\*&]+?\b(\w+)\s*\([^;{]*\)\s*(?::\s*\w+\s*)?\{", text, re.M))
 
@@ -228,6 +258,9 @@ def check(case, impl):
                     return "%s: metadata says group %d %s, the source says ArgumentBuffer%d [[id(%d)]]" % (name, e["group"], e["loc"], g, idx)
                 if e["count"] != cnt:
                     return "%s: metadata count %s, source array size %s" % (name, e["count"], cnt)
+                kinds = msl_kinds(ty)
+                if kinds is not None and e["type"] not in kinds:
+                    return "%s: metadata says %s, the argument buffer member is declared `%s`" % (name, e["type"], ty)
             for e in entries:
                 if mode == "nopipe":
                     break    # without a pipeline Metal emits no argument buffers at all
